@@ -11,7 +11,8 @@ for f in glob.glob(src + '/*'):
         shutil.copy(f, dst)
 meta = json.load(open(src + '/meta.json'))
 meta['confirmed_by_me'] = ('tools/seed_verify.sh %s in the scratch worktree: builds, existing suite passes with the change, the demonstration fails with it and passes without it; '
-                           'tools/seed_run.sh applied it to /repo, ran the checks and undid it (git checkout -- .)' % sid)
+                           'tools/seed_run.sh applied it to %s, ran the checks (VERIF_REPO) and undid it (git checkout -- .)'
+                           % (sid, os.environ.get('SEED_APPLY') and 'a scratch worktree of /repo (a background sweep was using /repo)' or '/repo'))
 meta['caught_by'] = caught
 json.dump(meta, open(dst + '/meta.json', 'w'), indent=1)
 print('stored', dst)
